@@ -19,7 +19,9 @@ RULE = ("EVERY exported Aggregate class x EVERY declared child: build a minimal 
         "list-member types in both orders; every class found by its tag and every declared child type exported; list(cls.spec) equals the "
         "independently derived order; every exclusivity group (declared on the class or any base/mixin) names existing optional children and "
         "rejects every pair of its members, required groups also reject 'none'. A case = (class, child | pair | group); all are non-trivial")
-ASSUMPTIONS = ["children are derived by an independent MRO walk (ref_decl.py)",
+ASSUMPTIONS = ["children are derived by an independent MRO walk (ref_decl.py) AND compared with vf/oracles/spec_table.json (frozen copy of the reviewed declarations): a child the table lists "
+               "but the class no longer declares is witnessed by reading a document that carries it",
+               "a repeated child may occur any number of times (probed with three copies), except in classes with a validation rule of their own (ACCTINFO)",
                "'non-repeated' in the statement is read behaviourally: a group naming a repeated child is in order iff the constructor counts "
                "list members of that type, i.e. the group can fire (checked by building the offending pair)",
                "plain ASCII values are used so that the probe isolates reachability (value fidelity is C01/C03's business)"]
